@@ -1,0 +1,270 @@
+//go:build verif
+
+package verifhook
+
+// Screen rendering (property C24): the harness prints views of the console UI
+// into a captured stdout and reports what was written.
+
+import (
+	"fmt"
+	"mltwist/internal/consoleui"
+	"mltwist/internal/consoleui/disassemble"
+	"mltwist/internal/consoleui/emulate"
+	"mltwist/internal/consoleui/internal/lines"
+	"mltwist/internal/consoleui/internal/memview"
+	"mltwist/internal/consoleui/internal/view"
+	"mltwist/internal/deps"
+	"mltwist/internal/state"
+	"mltwist/internal/state/memory"
+	"mltwist/pkg/model"
+	"strconv"
+	"strings"
+)
+
+// SuicRender is the observable result of one Print call of a view.
+type SuicRender struct {
+	// Status is "ok" (Print returned nil), "err" (Print returned an error)
+	// or "PANIC".
+	Status string
+	// Newlines is the number of '\n' bytes written to stdout.
+	Newlines int
+	// Open tells that the output does not end with '\n' (and is not empty).
+	Open bool
+	// Min and Max are MinLines() and MaxLines() of the view.
+	Min, Max int
+
+	// Size is the number of rows of the listing / memory view (-1 if not
+	// applicable), Cursor its cursor (-1 if there is none).
+	Size, Cursor int
+	// First is the index shown in the first numbered row written (-1 if
+	// none), Numbered the number of numbered rows, CursorRow the index
+	// shown in the row carrying the cursor mark (-1 if none).
+	First, Numbered, CursorRow int
+
+	// Grants is the result of Composite.distributeLines for the composites
+	// (nil if the view is no composite or the height is below the minimum),
+	// InnerGrants the same for a composite nested as the first element.
+	Grants, InnerGrants []int
+	// Seen lists the heights the stub elements of a synthetic composite
+	// were asked to print.
+	Seen []int
+}
+
+func suicPrint(v view.View, n int) SuicRender {
+	r := SuicRender{Size: -1, Cursor: -1, First: -1, CursorRow: -1}
+	r.Min, r.Max = v.MinLines(), v.MaxLines()
+
+	r.Status = "ok"
+	out := CaptureStdout(func() {
+		defer func() {
+			if p := recover(); p != nil {
+				r.Status = "PANIC"
+			}
+		}()
+		if err := v.Print(n); err != nil {
+			r.Status = "err"
+		}
+	})
+
+	r.Newlines = strings.Count(out, "\n")
+	r.Open = len(out) > 0 && !strings.HasSuffix(out, "\n")
+
+	// Rows of the listing and of the memory view start with the cursor
+	// column, a space and the right aligned row index followed by "  | ".
+	for _, ln := range strings.Split(out, "\n") {
+		if len(ln) < 2 || (ln[0] != ' ' && ln[0] != '>') || ln[1] != ' ' {
+			continue
+		}
+		rest := strings.TrimLeft(ln[2:], " ")
+		end := strings.Index(rest, "  | ")
+		if end <= 0 {
+			continue
+		}
+		idx, err := strconv.Atoi(rest[:end])
+		if err != nil {
+			continue
+		}
+		if r.Numbered == 0 {
+			r.First = idx
+		}
+		r.Numbered++
+		if ln[0] == '>' {
+			r.CursorRow = idx
+		}
+	}
+
+	return r
+}
+
+// suicCursor resolves a cursor specification for a view of size rows: a
+// non-negative number counts from the beginning, a negative one from the end
+// (-1 is the last row), "mid" is the middle; the value is clamped to the valid
+// range.
+func suicCursor(spec string, size int) int {
+	var c int
+	if spec == "mid" {
+		c = size / 2
+	} else {
+		v, err := strconv.Atoi(spec)
+		if err != nil {
+			panic(fmt.Sprintf("bad cursor specification %q", spec))
+		}
+		c = v
+		if v < 0 {
+			c = size + v
+		}
+	}
+	if c >= size {
+		c = size - 1
+	}
+	if c < 0 {
+		c = 0
+	}
+	return c
+}
+
+func suicSetLines(v *lines.View, cursor string) (int, int) {
+	size := v.Lines.Len()
+	c := suicCursor(cursor, size)
+	if size > 0 {
+		if err := v.Cursor.Set(c); err != nil {
+			panic(err)
+		}
+	}
+	return size, v.Cursor.Value()
+}
+
+// SuicRenderLines prints n lines of the disassembly listing of code with the
+// cursor placed according to cursor.
+func SuicRenderLines(code *deps.Code, cursor string, n int) SuicRender {
+	v := lines.NewView(code)
+	size, c := suicSetLines(v, cursor)
+	r := suicPrint(v, n)
+	r.Size, r.Cursor = size, c
+	return r
+}
+
+func suicSetMem(h memview.VerifSuicView, cursor string) (int, int) {
+	if !h.HasCursor() {
+		return h.Rows(), -1
+	}
+	if err := h.SetCursor(suicCursor(cursor, h.Rows())); err != nil {
+		panic(err)
+	}
+	return h.Rows(), h.Cursor()
+}
+
+// SuicRenderMem prints n lines of the memory view of mem (nil allowed).
+func SuicRenderMem(mem memory.Memory, cursor string, n int) SuicRender {
+	_, h := memview.VerifSuicNewMode(mem)
+	size, c := suicSetMem(h, cursor)
+	r := suicPrint(h.View(), n)
+	r.Size, r.Cursor = size, c
+	return r
+}
+
+// SuicRenderRegs prints n lines of the register view of stat.
+func SuicRenderRegs(stat *state.State, n int) SuicRender {
+	return suicPrint(emulate.VerifSuicNewRegView(stat), n)
+}
+
+// SuicRenderPrompt prints the command prompt.
+func SuicRenderPrompt(n int) SuicRender {
+	return suicPrint(consoleui.VerifSuicPrompt(), n)
+}
+
+func suicGrants(c *view.Composite, n int) []int {
+	rem := n - c.MinLines()
+	if rem < 0 {
+		return nil
+	}
+	return c.VerifSuicDistributeLines(rem)
+}
+
+func suicComposite(c *view.Composite, n int) SuicRender {
+	// The grants are computed first: Print must not depend on them.
+	grants := suicGrants(c, n)
+	var inner []int
+	if els := c.VerifSuicElements(); grants != nil && len(els) > 0 {
+		if ic, ok := els[0].(*view.Composite); ok {
+			inner = suicGrants(ic, grants[0])
+		}
+	}
+	r := suicPrint(c, n)
+	r.Grants, r.InnerGrants = grants, inner
+	return r
+}
+
+// SuicRenderEmu prints n lines of the view of the emulation mode (the listing
+// above the register table) created by emulate.New(code, ip, stat).
+func SuicRenderEmu(code *deps.Code, ip model.Addr, stat *state.State, cursor string, n int) (SuicRender, error) {
+	m, err := emulate.New(code, ip, stat)
+	if err != nil {
+		return SuicRender{}, err
+	}
+	size, c := suicSetLines(emulate.VerifSuicLineView(m), cursor)
+	r := suicComposite(m.View().(*view.Composite), n)
+	r.Size, r.Cursor = size, c
+	return r, nil
+}
+
+// SuicRenderUIDis prints n lines of the screen of the disassembly mode: the
+// listing above the command prompt.
+func SuicRenderUIDis(code *deps.Code, cursor string, n int) SuicRender {
+	m := disassemble.New(code, nil)
+	size, c := suicSetLines(m.View().(*lines.View), cursor)
+	r := suicComposite(consoleui.VerifSuicScreen(m), n)
+	r.Size, r.Cursor = size, c
+	return r
+}
+
+// SuicRenderUIEmu prints n lines of the screen of the emulation mode.
+func SuicRenderUIEmu(code *deps.Code, ip model.Addr, stat *state.State, cursor string, n int) (SuicRender, error) {
+	m, err := emulate.New(code, ip, stat)
+	if err != nil {
+		return SuicRender{}, err
+	}
+	size, c := suicSetLines(emulate.VerifSuicLineView(m), cursor)
+	r := suicComposite(consoleui.VerifSuicScreen(m), n)
+	r.Size, r.Cursor = size, c
+	return r, nil
+}
+
+// SuicRenderUIMem prints n lines of the screen of the memory mode.
+func SuicRenderUIMem(mem memory.Memory, cursor string, n int) SuicRender {
+	m, h := memview.VerifSuicNewMode(mem)
+	size, c := suicSetMem(h, cursor)
+	r := suicComposite(consoleui.VerifSuicScreen(m), n)
+	r.Size, r.Cursor = size, c
+	return r
+}
+
+// suicStub is a view with the given bounds which prints exactly the number of
+// lines it is asked for and records that number.
+type suicStub struct {
+	min, max int
+	seen     *[]int
+}
+
+func (s suicStub) MinLines() int { return s.min }
+func (s suicStub) MaxLines() int { return s.max }
+func (s suicStub) Print(n int) error {
+	*s.seen = append(*s.seen, n)
+	for i := 0; i < n; i++ {
+		fmt.Printf("x\n")
+	}
+	return nil
+}
+
+// SuicRenderSyn prints n lines of a composite of stub views with the given
+// (MinLines, MaxLines) pairs.
+func SuicRenderSyn(bounds [][2]int, n int) SuicRender {
+	seen := []int{}
+	els := make([]view.View, len(bounds))
+	for i, b := range bounds {
+		els[i] = suicStub{min: b[0], max: b[1], seen: &seen}
+	}
+	r := suicComposite(view.NewComposite(els...), n)
+	r.Seen = seen
+	return r
+}
